@@ -564,11 +564,15 @@ theorem ctfTR_correct_partial (target : MG Name) (ds : List Domain) (o c : Event
 --     (an outcome is dropped from `D_*`: `OutcomesFound = false`), cond:value:two_values (no reading exists),
 --     cond:value:multi_world (a vertex in two worlds: the class asks for ONE world across all ancestral components),
 --     cond:value:literal_bound (a literal subscript naming a summed vertex);
---   * NOT DECIDED where the class is stricter than the code needs: a literal subscript that names an OUTCOME with the same
---     value (`P(Y_x = y, X = x | Z = z)`: the denominator's sum over `X` also moves the subscript, which is harmless by
---     composition when the subscript sits on an outcome — 51 of the 54 generated cases excluded by this clause alone are
---     accepted by the oracle), two outcomes over one vertex with the same value, multi-world queries on which the
---     vertex-wise bookkeeping happens to be right.  (tools/c09_condclass.py measures these shares.)
+--   * NOT DECIDED where the class is stricter than the code needs (quick stream, seed 0, 1318 answered conditional cases
+--     with an event, 361 in the class; tools/c09_condclass.py): a literal subscript that names a vertex of the components
+--     which is not a condition (58 cases excluded by this clause alone, 54 accepted by the oracle: e.g. the subscript names
+--     an OUTCOME with the same value, `P(Y_x = y, X = x | Z = z)` — the denominator's sum over `X` also moves the subscript,
+--     harmless by composition — or sits on a condition whose component holds no outcome), two outcomes over one vertex (17,
+--     all accepted), a vertex in two worlds on which the vertex-wise bookkeeping happens to be right (13, all accepted),
+--     an outcome not found under its own name that is dropped without changing the value (27, 15 accepted).  The 164
+--     cases without a reading (a name with two value symbols: finding cond:value:two_values) are outside every reading of
+--     "the returned event's values".
 
 /-! ## Non-vacuity: a two-domain family on `X → Y` with a selection node on `X`
 
